@@ -572,7 +572,11 @@ theorem printable_serPathAndQuery (p : PathAndQuery) : Printable (serPathAndQuer
 
 theorem printable_serRequest (q : Request) : Printable (serRequest q) := by
   have h1 := printable_serVec serHeader q.headers printable_serHeader
+  have h2 := printable_serOption (fun x : Ip => Json.str (String.ofList (showIp x))) q.remote_addr
+    (fun _ => printable_str _)
+  have h3 := printable_serOption (fun d : DateTime => Json.str (String.ofList (showDt d))) q.created_at
+    (fun _ => printable_str _)
   simp [serRequest, Printable, PrintableFields, printable_serOption _ _ printable_str,
-    printable_serOption _ _ printable_bool, printable_serPathAndQuery, h1]
+    printable_serOption _ _ printable_bool, printable_serPathAndQuery, h1, h2, h3]
 
 end Rio.Json
